@@ -190,9 +190,13 @@ def check(case) -> CaseResult:
             jax.block_until_ready(F0.step)
             T0 = runA.trace.by_key()
             runA.trace.clear()
-            gs1 = graph.init_record(gs, **crs)
-            F1 = roll(gs1)
-            jax.block_until_ready(F1.step)
+            try:
+                gs1 = graph.init_record(gs, **crs)
+                F1 = roll(gs1)
+                jax.block_until_ready(F1.step)
+            except (IndexError, KeyError, TypeError, ValueError) as ex:  # the same graph just ran without recording
+                res.fail("C13.enabling_recording_makes_compiled_execution_raise", dict(err=f"{type(ex).__name__}: {str(ex)[:160]}", flags=crs, mode=case["mode"], prune=case["prune"]))
+                return res
             T1 = runA.trace.by_key()
             runA.trace.clear()
             if set(T0) != set(T1):
